@@ -146,7 +146,8 @@ def xml_fields(gen, t, v, pref):
     for n, ft in all_fields(t):
         if ft['k'] != 'attr':
             # a field lives in the namespace of the class that declares it
-            out += xml_member(gen, n, ft, v.get(n), owner_ns(t, n, gen), pref)
+            # (a member travels under its sub_name when it declares one)
+            out += xml_member(gen, ft.get('sub_name', n), ft, v.get(n), owner_ns(t, n, gen), pref)
     return out
 
 
@@ -199,9 +200,9 @@ def dict_value(t, v, fam):
         for n, ft in all_fields(t):
             x = v.get(n)
             if x is NIL:
-                out[n] = None
+                out[ft.get('sub_name', n)] = None
             elif x is not None:
-                out[n] = dict_value(ft, x, fam)
+                out[ft.get('sub_name', n)] = dict_value(ft, x, fam)
         return out
     if k == 'arr':
         return [dict_value(dict(t['of'], max=1), x, fam) for x in (v.values() if isinstance(v, Sparse) else v)]
@@ -236,7 +237,7 @@ def flat_pairs(prefix, t, v, out):
         out.append((prefix, lex(v)))
     elif k == 'obj':
         for n, ft in all_fields(t):
-            flat_pairs('%s.%s' % (prefix, n), ft, v.get(n), out)
+            flat_pairs('%s.%s' % (prefix, ft.get('sub_name', n)), ft, v.get(n), out)
     elif k == 'arr':
         it = t['of']
         for i, x in (list(v) if isinstance(v, Sparse) else enumerate(v)):
